@@ -185,6 +185,16 @@ func (vc *VC) modsOfCall(x *ssa.Call, ms *ModSet, depth int) {
 		return
 	}
 	if c.IsInvoke() {
+		if vc.topCon != nil && vc.topCon.Flags["devirt"] && vc.topCon.Flags["devirt-closed"] {
+			if iface, ok := types.Unalias(c.Value.Type()).Underlying().(*types.Interface); ok {
+				if cands := vc.devirtCands(iface, c.Method.Name()); len(cands) > 0 {
+					for _, cd := range cands {
+						vc.conMods(vc.eng.contractOf(cd.fn), ms)
+					}
+					return
+				}
+			}
+		}
 		ic := vc.eng.ifaceContract(c.Value.Type(), c.Method.Name())
 		if ic == nil {
 			ms.all = true
@@ -590,6 +600,32 @@ func (vc *VC) execCall(fr *Frame, st *State, x *ssa.Call) {
 		}
 	}
 	if callee == nil {
+		// a callback stored in a struct field may have an (assumed) contract:
+		// //@ interface <Struct>.<Field>
+		if u, ok := c.Value.(*ssa.UnOp); ok && u.Op == token.MUL {
+			if fa, ok := u.X.(*ssa.FieldAddr); ok {
+				if pt := deref(fa.X.Type()); pt != nil {
+					if n, ok := types.Unalias(pt).(*types.Named); ok {
+						if stt, ok := n.Underlying().(*types.Struct); ok {
+							key := n.Obj().Name() + "." + stt.Field(fa.Field).Name()
+							if con := vc.eng.ifaceCons[key]; con != nil {
+								fv := vc.val(fr, st, c.Value)
+								vc.safety(fr, st, "nilptr", "(not (= "+fv.S+" 0))", x.Pos(), "call of nil func "+key)
+								vc.assumed["callback-contract:"+key] = true
+								vars := map[string]*Val{}
+								for i, a := range args {
+									vars[fmt.Sprintf("arg%d", i)] = a
+								}
+								sig := c.Value.Type().Underlying().(*types.Signature)
+								results := vc.applyContract(fr, st, x.Pos(), key, con, vars, sig.Results())
+								fr.regs[x] = tupleOrSingle(x.Type(), results)
+								return
+							}
+						}
+					}
+				}
+			}
+		}
 		// call through a function value: nothing is known about the callee
 		vc.uncontr["func-value:"+c.Value.Name()+"@"+vc.fnName] = true
 		ms := newModSet()
@@ -648,7 +684,7 @@ func (vc *VC) callFunc(fr *Frame, st *State, x *ssa.Call, callee *ssa.Function, 
 
 func (vc *VC) callFunc2(fr *Frame, st *State, x *ssa.Call, callee *ssa.Function, args []*Val, binds []*Val) *Val {
 	rt := x.Type()
-	if con := vc.eng.contractOf(callee); con != nil && !(fr.depth == 0 && false) {
+	if con := vc.eng.contractOf(callee); con != nil && !(fr.depth == 0 && fr.con != nil && fr.con.Inline[fnDisplayName(callee)]) {
 		return vc.callByContract(fr, st, x, callee, con, args)
 	}
 	inPkg := callee.Pkg != nil && callee.Pkg.Pkg == vc.u.pkg
